@@ -97,3 +97,47 @@ Lemma splitdown_uses_split_cell (r : row) (i : Z) (part : list Z) (n : nat) :
   mapM (fun j => if j =? i then Ok (VStr part) else match py_nth r j with Some v => Ok v | None => Err IndexErr end) (zrange n 0)
   = mapM (split_cell r i (VStr part)) (zrange n 0).
 Proof. reflexivity. Qed.
+
+(* the whole operator model: whenever splitdown_model runs to the end, the header is passed through and every emitted data row
+   comes from a source row, with one of that row's parts at the split field and the row's own cells everywhere else *)
+Definition split_row_of (hdr : row) (sep i : Z) (r out : row) : Prop :=
+  exists s part, py_nth r i = Some (VStr s) /\ In part (split_on sep [] s) /\ length out = length hdr /\
+    forall k, (k < length hdr)%nat -> nth_error out k = if Z.of_nat k =? i then Some (VStr part) else py_nth r (Z.of_nat k).
+
+Lemma mapM_Forall2 {A B} (f : A -> res B) (l : list A) (out : list B) :
+  mapM f l = Ok out -> Forall2 (fun x y => f x = Ok y) l out.
+Proof.
+  revert out; induction l as [|x t IH]; intros out; cbn [mapM]; [intros H; inversion H; constructor|].
+  destruct (f x) as [y|e] eqn:Ey; [|discriminate]. destruct (mapM f t) as [rest|e] eqn:Er; [|discriminate].
+  intros H; inversion H; subst. constructor; [exact Ey|apply IH; reflexivity].
+Qed.
+
+Theorem splitdown_model_frame (field : val) (sep : Z) (hdr : row) (rows : list row) (outt : table) :
+  splitdown_model field sep (hdr :: rows) = (outt, None) ->
+  exists i o, outt = hdr :: o /\ Forall (fun out => exists r, In r rows /\ split_row_of hdr sep i r out) o.
+Proof.
+  unfold splitdown_model.
+  destruct (if is_int field && (int_of field <? zlen hdr) then Some (int_of field) else py_index field (map hdr_text hdr)) as [i|];
+    [|discriminate].
+  match goal with |- (let '(o, e) := ?g rows in _) = _ -> _ => set (go := g) end.
+  destruct (go rows) as [o e] eqn:Ego. intros H. inversion H; subst; clear H. exists i, o. split; [reflexivity|].
+  revert o Ego. induction rows as [|r rest IH]; intros o Ego.
+  - cbn in Ego. inversion Ego; constructor.
+  - cbn [go] in Ego. fold go in Ego.
+    destruct (py_nth r i) as [[| ? ? | ? | s | ? | ? | ? | ? ?]|] eqn:Er; try discriminate.
+    all: try (inversion Ego; fail).
+    destruct (mapM _ (split_on sep [] s)) as [here|e] eqn:Eh; [|discriminate].
+    destruct (go rest) as [o' e'] eqn:Eg'. inversion Ego; subst; clear Ego.
+    apply Forall_app. split.
+    + apply mapM_Forall2 in Eh. clear -Eh Er.
+      assert (G : forall parts here', Forall2 (fun part y =>
+                    mapM (split_cell r i (VStr part)) (zrange (length hdr) 0) = Ok y) parts here' ->
+                  (forall p, In p parts -> In p (split_on sep [] s)) ->
+                  Forall (fun out => exists r0, In r0 (r :: rest) /\ split_row_of hdr sep i r0 out) here').
+      { induction 1 as [|part y ps ys Hy _ IHf]; intros Hin; constructor.
+        - exists r. split; [left; reflexivity|]. exists s, part. split; [exact Er|]. split; [apply Hin; left; reflexivity|].
+          exact (split_row_frame r i (VStr part) (length hdr) y Hy).
+        - apply IHf. intros p Hp. apply Hin. right; exact Hp. }
+      apply (G _ _ Eh). auto.
+    + specialize (IH o' eq_refl). eapply Forall_impl; [|exact IH]. intros out [r0 [Hin Hs]]. exists r0. split; [right; exact Hin|exact Hs].
+Qed.
